@@ -501,24 +501,33 @@ def rename_chain(ctx, facts, f):
     ctx.ob("C14.R4d", site + ":old-name-before-update", ok and existing_v is not None,
            "the existing file name is computed from the entry (base name, index, date) before the entry is updated in that iteration", fn=f)
     # R4e: date suffix per naming scheme, from the moment the file was opened
-    sfx = {}
-    for n in f.walk():
-        a = _assign(n) if n["k"] in ("BinaryOperator", "CXXOperatorCallExpr") else None
-        if not a:
-            continue
-        calls = [x for x in walk(a[1]) if is_call(x, r"::format_datetime_string$")]
-        if calls:
-            c = calls[0]
-            fmt = [x["str"] for x in walk(c["args"][2]) if x["k"] == "StringLiteral"]
-            ifs = [i for i in f.ancestors(n) if i["k"] == "IfStmt" and in_subtree(n, i["then"])]
-            scheme = [x["name"].split("::")[-1] for x in walk(ifs[0]["cond"]) if x["k"] == "DeclRefExpr" and x.get("dk") == "EnumConstant"] if ifs else []
-            nc = norm_cmp(ifs[0]["cond"]) if ifs else None
-            sfx[scheme[0] if scheme and nc and nc[0] == "==" else "?"] = (fmt[0] if fmt else None, is_this_field(strip(c["args"][0], casts=True), "_open_file_timestamp"),
-                                                                           any(is_call(x, r"::timezone$") for x in walk(c["args"][1])))
+    sfx = {k: v[:3] for k, v in suffix_sites(facts, f).items()}
     ok = sfx.get("Date") == ("%Y%m%d", True, True) and sfx.get("DateAndTime") == ("%Y%m%d_%H%M%S", True, True) and "?" not in sfx and "Index" not in sfx
     ctx.ob("C14.R4e", site + ":suffix-per-scheme", ok,
            "the Date scheme stamps %%Y%%m%%d, DateAndTime %%Y%%m%%d_%%H%%M%%S, Index nothing — each of the moment the retired file was opened, "
            "in the configured zone (%s)" % sfx, fn=f)
+
+
+def suffix_sites(facts, f):
+    """where the date / date-time suffix of a rotated file is rendered: the format_datetime_string calls of _rotate_files itself or,
+    when it has none, of the member function(s) of the same class it calls for it (the suffix computation extracted into a helper).
+    {scheme or '?': (format, from the open timestamp, in the configured zone, owner, call)}; the scheme is the enumerator the nearest
+    enclosing `if (scheme == E)` (then-arm) tests."""
+    owners = [f] if f.calls(r"::format_datetime_string$") else \
+        [h for h in facts.callgraph(f.config).get(id(f), ()) if h.cls == f.cls and h.calls(r"::format_datetime_string$")]
+    out = {}
+    for o in owners:
+        for c in o.calls(r"::format_datetime_string$"):
+            fmt = [x["str"] for x in walk(c["args"][2]) if x["k"] == "StringLiteral"]
+            ifs = [i for i in o.ancestors(c) if i["k"] == "IfStmt" and in_subtree(c, i["then"])]
+            scheme = [x["name"].split("::")[-1] for x in walk(ifs[0]["cond"]) if x["k"] == "DeclRefExpr" and x.get("dk") == "EnumConstant"] if ifs else []
+            nc = norm_cmp(ifs[0]["cond"]) if ifs else None
+            key = scheme[0] if scheme and nc and nc[0] == "==" else "?"
+            if key in out and key != "?":
+                key = "?"       # two sites for one scheme: not a shape the table describes
+            out[key] = (fmt[0] if fmt else None, is_this_field(strip(c["args"][0], casts=True), "_open_file_timestamp"),
+                        any(is_call(x, r"::timezone$") for x in walk(c["args"][1])), o, c)
+    return out
 
 
 def get_filename(ctx, facts, f):
